@@ -121,6 +121,12 @@ class CallsDriver:
         self.reason = None
         self.noise = []          # anything unexpected (late firings, exceptions)
         self.nexp = 0
+        # a second connection of the same process with a call of its own in flight: whatever happens on the first
+        # connection (replies, errors, expiries, loss) is none of its business
+        self.by_conn, self.by_t, _ = fakes.ready_client(bus_name=':1.8')
+        self.by_fired = []
+        self.by_conn.callRemote('/by', 'Stander', interface='org.ex.By', destination='org.ex.D').addBoth(self.by_fired.append)
+        self.by_serial = fakes.parse_all(self.by_t.take())[0].serial
 
     # -- helpers
     def _other_serial(self, c):
@@ -256,6 +262,10 @@ class CallsDriver:
         if isinstance(pend, dict):
             inv = {s: c for c, s in self.serial.items()}
             st['table'] = frozenset(inv.get(s, -s) for s in pend.keys())
+        bp = getattr(self.by_conn, '_pendingCalls', None)
+        if self.by_fired or not isinstance(bp, dict) or set(bp.keys()) != {self.by_serial}:
+            st['conn'] = 'the call of another connection was disturbed: fired %r, its table %r' % (
+                [type(getattr(x, 'value', x)).__name__ for x in self.by_fired], sorted(bp.keys()) if isinstance(bp, dict) else bp)
         return st
 
 
